@@ -638,7 +638,7 @@ func c06Capacity(c *Ctx) {
 		c.Ok(c.fn(fn), c.P.FuncPos(fn), "semaphore = make(chan struct{}, maxConcurrency)")
 	}
 	ix := BuildIndex(c.P)
-	ws := ix.Writers(FieldRef{Type: "bulkhead", Pkg: "bulkhead", Field: actualField("bulkhead", "bulkhead", "semaphore")})
+	ws := ix.Writers(FieldRef{Type: "bulkhead", Pkg: "bulkhead", Field: "semaphore"})
 	allIn := len(ws) >= 1
 	for _, w := range ws {
 		if !ix.Within(w, func(f *ssa.Function) bool { return f == fn }) {
@@ -675,7 +675,7 @@ func c06ChannelOwner(c *Ctx) {
 					continue
 				}
 				fr, okf := fieldRefOfAddr(fa)
-				if !okf || fr.Pkg != "bulkhead" || fr.Type != "bulkhead" || fr.Field != actualField("bulkhead", "bulkhead", "semaphore") {
+				if !okf || fr.Pkg != "bulkhead" || fr.Type != "bulkhead" || fr.Field != "semaphore" {
 					continue
 				}
 				for _, ld := range *fa.Referrers() {
